@@ -104,15 +104,19 @@ BoolProds(env) ==
   \cup BoolMeth(env)
   \cup (IF Prof.boolConst THEN {P(Tok("Const", "bool", "", 1, 1), <<>>)} ELSE {})
 
+HasEv(env) == VarsOf(env, EV) # {}
+
 ObjProds(c, env) ==
      VarProds(O(c), env)
+  \cup (IF HasEv(env)
+        THEN {P(Tok("Single", cb[1], cb[2], 0, 1), <<Hole(EV, env)>>) :
+                cb \in {cb \in Prof.singles : CollClass[cb[1]] = c}}
+        ELSE {})
   \cup (IF Prof.first THEN {P(Tok("First", "", "", 0, 1), <<Hole(S(O(c)), env)>>)} ELSE {})
   \cup ObjMeth(c, env)
   \cup (IF Prof.index THEN {P(Tok("Idx", "", "", 0, 1), <<Hole(V(O(c)), env), Hole(ICONST, env)>>)} ELSE {})
 
 VecProds(e, env) == VecMeth(e, env)
-
-HasEv(env) == VarsOf(env, EV) # {}
 
 SeqProds(e, env) ==
      VarProds(S(e), env)
@@ -209,7 +213,7 @@ Complete == agenda = <<>>
 (* prefix tokens -> tree *)
 Arity(tk) ==
   CASE tk.k \in {"DS", "Const", "Str", "Var"} -> 0
-    [] tk.k \in {"First", "Count", "Sum", "Min", "Max", "Coll", "Un", "TupIdx", "DictGet"} -> 1
+    [] tk.k \in {"First", "Count", "Sum", "Min", "Max", "Coll", "Single", "Un", "TupIdx", "DictGet"} -> 1
     [] tk.k \in {"Select", "SelectMany", "Where", "Range", "Idx", "Bin", "Cmp"} -> 2
     [] tk.k \in {"Aggregate", "If"} -> 3
     [] tk.k \in {"And", "Or", "Tuple", "List", "Math", "UserFn"} -> tk.n
